@@ -243,6 +243,9 @@ func (P *Prog) retClass(r *ssa.Return, idx int) (string, *Term) {
 func Returns(fn *ssa.Function) []*ssa.Return {
 	var out []*ssa.Return
 	for _, b := range fn.Blocks {
+		if b != fn.Blocks[0] && !reachBlock(fn.Blocks[0], b, nil) {
+			continue // recover block / dead code
+		}
 		if len(b.Instrs) > 0 {
 			if r, ok := b.Instrs[len(b.Instrs)-1].(*ssa.Return); ok {
 				out = append(out, r)
@@ -428,6 +431,15 @@ func ReachWithout(fn *ssa.Function, from ssa.Instruction, target, avoid func(ssa
 		p := instrIndex(from)
 		start = ipos{p.b, p.i + 1}
 	}
+	return reachWithoutFrom(start, target, avoid, ok)
+}
+
+// ReachFromBlock is ReachWithout starting at the first instruction of block b.
+func ReachFromBlock(b *ssa.BasicBlock, target, avoid func(ssa.Instruction) bool, ok edgeFilter) (bool, ssa.Instruction, []*ssa.BasicBlock) {
+	return reachWithoutFrom(ipos{b, 0}, target, avoid, ok)
+}
+
+func reachWithoutFrom(start ipos, target, avoid func(ssa.Instruction) bool, ok edgeFilter) (bool, ssa.Instruction, []*ssa.BasicBlock) {
 	type item struct {
 		b    *ssa.BasicBlock
 		from int
